@@ -34,14 +34,16 @@ PROP = 'C03'
 SEC_TYPE = sd.BIB
 CORPUS = os.path.join(os.path.dirname(os.path.abspath(__file__)), 'corpus')
 
-# Genuine defects of the unchanged tree found by this check, reported to the coordinator and gated here so
-# the run stays green until they are entered in known_findings.json (then chk.fail prints KNOWN-FINDING) or
-# fixed (then the witness stops reproducing and nothing is printed).
+# Genuine defects of the unchanged tree found by this check (witnesses in harness/corpus/C03_*.json).
+# A signature listed in PENDING_FINDINGS is recorded but does not fail the run until the coordinator has
+# entered it in known_findings.json.
 SIG_EID = 'C03 / EID text altered within what EidField.i2m normalises away (query, fragment, missing path slash; primary block with stale or absent CRC, or security source) still verifies'
 SIG_IGNORED = 'C03 / security block whose BTSD the decoder cannot dissect is ignored: altered BIB, bundle delivered unverified'
 SIG_REASON = 'C03 / verify_bib raises on a malformed security block: status reason is the exception text, no FAILED_SEC, report generation raises out of recv_bundle'   # fixed in /repo d956b1c: a real violation if it reappears
 SIG_MACKW = 'C03 / COSE_Mac with key-wrap recipient: genuine BIB never verifies and apply_bib raises (pycose API mismatch), bundle sent without BIB'
-PENDING_FINDINGS = [SIG_EID, SIG_IGNORED, SIG_MACKW]
+# All of them are now entered in known_findings.json (exact signatures), so every hit goes through
+# Check.fail and prints KNOWN-FINDING on the unchanged tree; the gate is kept (empty) for future ones.
+PENDING_FINDINGS = []
 
 PAYLOAD = b'hello world'
 
@@ -84,7 +86,8 @@ class CoqBatch(object):
     def run(self, chk, name='model'):
         nshard = procs()
         self.results = chk.coq_eval(name, ['Lib.Cbor', 'Model.BpSec'], self.terms, '(fun x => x)',
-                                    prelude='\n'.join(self.prelude), chunk=max(20, (len(self.terms) + nshard - 1) // nshard))
+                                    prelude='\n'.join(self.prelude),
+                                    chunk=min(500, max(20, (len(self.terms) + nshard - 1) // nshard)))
 
     def get(self, idx):
         return self.results[idx]
@@ -217,7 +220,7 @@ def aad_cases(rng, count):
 
 def suite_aad(chk, node, quick, batch, count=None):
     ''' :return: finish() to call after batch.run '''
-    cases = aad_cases(chk.rng, count or (150 if quick else 1500))
+    cases = aad_cases(chk.rng, count or (80 if quick else 1500))
     idxs = []
     impl = []
     for case in cases:
@@ -450,7 +453,7 @@ def suite_alterations(suite, wires, quick, batch):
         trace('%s: %d alterations classified' % (ent['id'], len(cases)))
         outs = sd.sweep(dict(profile=ent['profile'], extra=ent.get('extra')), [case['alt'] for case in cases], procs=nproc)
         trace('%s: swept' % ent['id'])
-        budget = 45 if quick else 2000
+        budget = 25 if quick else 400
         for (cidx, (case, cls, out)) in enumerate(zip(cases, classes, outs)):
             replay = dict(wire_hex=ent['wire'].hex(), alt_hex=case['alt'].hex(), profile=ent['profile'], label=case['label'],
                           payload_hex=ent['payload'].hex(), wire_id=ent['id'], extra=ent.get('extra'), targets=ent.get('targets'))
@@ -599,6 +602,22 @@ def suite_corpus(suite):
             oracle(suite, ent, case, cls, out, item['replay'])
 
 
+def finish_keep_evidence(chk, **kwargs):
+    ''' Check.finish always writes evidence/<id>.json; a --replay of one input must not replace the evidence
+    of the last full run. '''
+    path = os.path.join(os.path.dirname(CORPUS), '..', 'evidence', chk.prop_id + '.json')
+    old = None
+    if os.path.exists(path):
+        with open(path, 'rb') as infile:
+            old = infile.read()
+    try:
+        chk.finish(**kwargs)
+    finally:
+        if old is not None:
+            with open(path, 'wb') as out:
+                out.write(old)
+
+
 def replay_main(chk, path):
     with open(path) as infile:
         item = json.load(infile)
@@ -628,7 +647,7 @@ def replay_main(chk, path):
         chk.fail(signature=sig, what=info['what'], replay_obj=rep)
     chk.case(ident=('replay', path), nontrivial=True, sample=dict(replay=os.path.basename(path), cls=cls[0]))
     chk.obligation('replay:ran', True)
-    chk.finish(rule='replay of one stored input')
+    finish_keep_evidence(chk, rule='replay of one stored input')
 
 
 # --------------------------------------------------------------------------- main
